@@ -105,7 +105,7 @@ func (m *machine) who(self int) func([]byte) string {
 		case o.url != self:
 			return "other-url"
 		}
-		return "stale"
+		return "older-bundle-of-same-url"
 	}
 }
 
@@ -257,8 +257,14 @@ func (m *machine) set(rt *rapid.T) {
 		// the new bundle are both acceptable from now on.
 		res = "error: " + short(err.Error())
 		m.cls["set-error"]++
-		if had && len(prev) == 1 && prev[0].isDir {
-			m.cls["set-error-on-dir"]++
+		onDir := false
+		for _, a := range prev {
+			onDir = onDir || a.isDir
+		}
+		if onDir {
+			m.cls["set-error-on-dir"]++ // the harness put a directory in place of the entry file
+		} else {
+			m.cls["set-error-healthy"]++
 		}
 		if !had {
 			prev = []state{{kind: "absent"}}
@@ -519,8 +525,7 @@ const fuzzURL = "http://example.com/fuzz.crl"
 
 // entryChecker owns one sandbox with one cache root for a whole enumeration / fuzz process
 // (creating directories is by far the most expensive step on this file system, and the check is
-// stateless: the single entry file is rewritten for every input and the root is verified to hold
-// nothing else afterwards).
+// stateless: the single entry file is rewritten for every input and a new FileCache is opened).
 type entryChecker struct {
 	sandbox, root, path string
 }
@@ -566,15 +571,8 @@ func (ec *entryChecker) check(data []byte, now time.Time) (key, msg, harnessErr 
 	} else {
 		classes = append(classes, "entry=malformed")
 	}
-	if key == "" && harnessErr == "" {
-		// reading must not have rewritten the file or added anything to the root
-		if after, err := os.ReadFile(ec.path); err == nil && string(after) != string(data) {
-			key, msg = "C15:get-rewrote-entry", "Get changed the entry file"
-		}
-		if ents, err := os.ReadDir(ec.root); err == nil && len(ents) > 1 {
-			key, msg = "C15:root-contents:get-created-files", fmt.Sprintf("after Get the root holds %d entries", len(ents))
-		}
-	}
+	// (whether Get may rewrite or remove an entry file it cannot use is outside the statement:
+	// the file is simply rewritten for the next input)
 	return key, msg, harnessErr, classes
 }
 
@@ -635,11 +633,11 @@ func TestC15_FuzzSeeds(t *testing.T) {
 		run(rc)
 		return
 	}
+	// sharded by the case description, not by position: the seeds are minted per process and
+	// their lengths differ by a few bytes between processes
 	shard, shards := stats.Shard()
-	idx := 0
 	each := func(c seedCase) {
-		idx++
-		if idx%shards == shard {
+		if int(stats.Fingerprint(c.Seed, c.Mutation)%uint64(shards)) == shard {
 			run(c)
 		}
 	}
